@@ -66,7 +66,45 @@ fn state(o: &json_syntax::Object) -> String {
 		.collect();
 	let c = o.clone();
 	let cs: Vec<String> = c.iter().map(kv).collect();
-	format!("S {} Q {} C {} {} {:?}", es.join(","), qs.join(";"), c == *o, cs.join(","), c.cmp(o))
+	// laws on pairs of different objects built by pushes: R = the entries reversed, T = without the first
+	let laws = if o.len() >= 2 {
+		use std::hash::{Hash, Hasher};
+		let build = |it: &mut dyn Iterator<Item = &json_syntax::object::Entry>| {
+			let mut x = json_syntax::Object::new();
+			for e in it {
+				x.push(e.key.clone(), e.value.clone());
+			}
+			x
+		};
+		let h = |x: &json_syntax::Object| {
+			let mut s = std::collections::hash_map::DefaultHasher::new();
+			x.hash(&mut s);
+			s.finish()
+		};
+		let law = |x: &json_syntax::Object| {
+			format!("{} {} {:?} {:?} {:?}{}", o == x, x == o, o.cmp(x), x.cmp(o), o.partial_cmp(x), if o == x && h(o) == h(x) { " hash-same" } else if o == x { " hash-differs" } else { "" })
+		};
+		let r = build(&mut o.iter().rev());
+		let t = build(&mut o.iter().skip(1));
+		format!(" L {} | {}", law(&r), law(&t))
+	} else {
+		String::new()
+	};
+	let (hash_same, rebuilt) = {
+		use std::hash::{Hash, Hasher};
+		let h = |x: &json_syntax::Object| {
+			let mut s = std::collections::hash_map::DefaultHasher::new();
+			x.hash(&mut s);
+			s.finish()
+		};
+		// the same entries pushed onto a fresh object
+		let mut b = json_syntax::Object::new();
+		for e in o.iter() {
+			b.push(e.key.clone(), e.value.clone());
+		}
+		(h(o) == h(&c), format!("{} {} {:?} {}", *o == b, b == *o, o.cmp(&b), h(o) == h(&b)))
+	};
+	format!("S {} Q {} C {} {} {:?} H {} B {}{}", es.join(","), qs.join(";"), c == *o, cs.join(","), c.cmp(o), hash_same, rebuilt, laws)
 }
 
 /// `obj OP OP ...`: replays a history of Object operations on the REAL Object and prints,
